@@ -39,6 +39,9 @@ func NewCollationSortedTree[K chars | []rune, V any](opts ...func(*collationSort
 		opt(t)
 	}
 
+	if verifRecording {
+		return verifWrap[K, V]("collation", t, nil)
+	}
 	return t
 }
 
